@@ -4,8 +4,8 @@ changes-over-base."""
 import ast
 
 from ..engine import rule
-from ..flow import PRUNE, Violation, explore, path_ends, path_is, prov_has, \
-    provenance
+from ..flow import PRUNE, Violation, explore, implied_atoms, path_ends, \
+    path_is, prov_has, provenance
 from ..model import dotted, walk_local
 from ..twopc import DS, MS
 
@@ -330,3 +330,60 @@ def r8(R):
                         name, ast.unparse(x)),
                     key='caller-supplied key looked up unguarded')
     R.require(n >= 3, 'MappingStorage read API not found')
+
+
+# ------------------------------------------------------------------ C16.R9
+@rule('C16.R9', 'the changes layer is garbage-collected on its own only '
+      'when the demo storage made its own (empty) base: with a supplied '
+      'base the pack of the changes runs with gc=False', props=['C07'],
+      min_instances=2)
+def r9(R):
+    cls = R.prog.cls(DS)
+    f = R.method(cls, 'pack')
+    g, b, F = R.cfg(f, cls, max_depth=0)
+    n = [0]
+
+    def edge(node, st, lab, tgt):
+        if node.kind == 'test' and lab in ('T', 'F'):
+            for e, truth in implied_atoms(node.ast, lab):
+                if dotted(e) is None and not isinstance(e, ast.Name):
+                    continue
+                pv = provenance(e, node.frame, F)
+                if ('path', ('self', '_temporary_base')) in pv or (
+                        dotted(e) == ('self', '_temporary_base')):
+                    return 'own-base' if truth else 'given-base'
+        return st
+
+    def at(node, st):
+        for op in F.ops(node):
+            if op.kind == 'call' and path_is(
+                    op.path, ('self', 'changes', 'pack')):
+                n[0] += 1
+                gc = None
+                for kw in op.ast.keywords:
+                    if kw.arg == 'gc':
+                        gc = kw.value
+                if len(op.ast.args) >= 3:
+                    gc = op.ast.args[2]
+                off = isinstance(gc, ast.Constant) and gc.value is False
+                if not off and st != 'own-base':
+                    return Violation(
+                        'DemoStorage.pack lets the changes storage '
+                        'garbage-collect (`%s`) on a path where the base '
+                        'may be a supplied, populated storage: the sweep of '
+                        'the changes alone cannot follow references through '
+                        'objects that live in the base -- it fails half way '
+                        'having already moved what it visited, or drops '
+                        'changed objects that are reachable only through '
+                        'the base; committed changes are lost' %
+                        ast.unparse(op.ast)[:60])
+        return st
+
+    vs, stats = explore(g, 'unknown', at=at, edge=edge)
+    R.count(stats)
+    R.instance('DemoStorage.pack', changes_pack_calls=n[0])
+    R.instance('DemoStorage.__init__ records whether the base is its own')
+    R.require(n[0] >= 1 or vs, 'DemoStorage.pack no longer packs the '
+              'changes')
+    for v in vs:
+        R.violation(v.node, v.message, g, v.path)
